@@ -1,10 +1,10 @@
 package main
 
 import (
-	"go/types"
 	"fmt"
 	"go/constant"
 	"go/token"
+	"go/types"
 	"strings"
 
 	"golang.org/x/tools/go/ssa"
@@ -14,8 +14,8 @@ func init() { register("C08", propC08) }
 
 func propC08() *Property {
 	return &Property{
-		ID:      "C08",
-		Decides: "R08.1 one definition of the key slot: saltFromTime and cipherKeyEpoch both round the instant to the same KeyRefreshInterval constant (120 s); salts are derived for exactly rounded-1, rounded, rounded+1 intervals; the client encrypts with the middle key, the server tries all; R08.2 the metadata timestamp is Unix()/60 in both writers and both readers, the acceptance margin is the constant 1, and the WithinRange instance used on the unsigned minute counter folds to `true` exactly for |difference| <= 1 (including when the sender is ahead); R08.3 cached key material is tagged with the slot of the instant it was derived for and is reused only while the current slot equals that tag. With these constants: |d| <= 60 s implies minute counters differ by at most 1 and rounded 120-s slots differ by at most 1 (accepted); a timestamp >= 2 minutes away fails margin 1; a key derived >= 240 s away is >= 2 slots away and is not among the three. The checker decides the constants and the structure; that two-line arithmetic is recorded here, not executed.",
+		ID:         "C08",
+		Decides:    "R08.1 one definition of the key slot: saltFromTime and cipherKeyEpoch both round the instant to the same KeyRefreshInterval constant (120 s); salts are derived for exactly rounded-1, rounded, rounded+1 intervals; the client encrypts with the middle key, the server tries all; R08.2 the metadata timestamp is Unix()/60 in both writers and both readers, the acceptance margin is the constant 1, and the WithinRange instance used on the unsigned minute counter folds to `true` exactly for |difference| <= 1 (including when the sender is ahead); R08.3 cached key material is tagged with the slot of the instant it was derived for and is reused only while the current slot equals that tag. With these constants: |d| <= 60 s implies minute counters differ by at most 1 and rounded 120-s slots differ by at most 1 (accepted); a timestamp >= 2 minutes away fails margin 1; a key derived >= 240 s away is >= 2 slots away and is not among the three. The checker decides the constants and the structure; that two-line arithmetic is recorded here, not executed.",
 		NotDecided: "the continuum of instants and skews (the arithmetic is argued, not enumerated); cache age/jitter behaviour; time.Time.Round itself (library).",
 		Rules: []Rule{
 			{ID: "R08.1", Floor: 5, Text: "slot arithmetic: same rounding in saltFromTime and cipherKeyEpoch; offsets {-1,0,+1} intervals; client index 1; server iterates the whole list", Run: r08_1},
@@ -179,82 +179,82 @@ func r08_2(c *RC) {
 		if strings.HasSuffix(fname, "Unmarshal") {
 			found := false
 			for _, hf := range scope {
-			hf := hf
-			instrs(hf, func(_ *ssa.BasicBlock, _ int, in ssa.Instruction) {
-				call, ok := in.(*ssa.Call)
-				if !ok || calleeName(call) != "WithinRange" {
-					return
-				}
-				found = true
-				withinInst = call.Common().StaticCallee()
-				k, isK := constInt(call.Common().Args[2])
-				// args: (current, original, margin)
-				cur := false
-				for _, l0 := range Leaves(call.Common().Args[0], nil) {
-					for _, l := range helperResultLeaves(p, l0) {
-						if bo, ok := l.(*ssa.BinOp); ok && bo.Op == token.QUO {
-							cur = true
-						}
+				hf := hf
+				instrs(hf, func(_ *ssa.BasicBlock, _ int, in ssa.Instruction) {
+					call, ok := in.(*ssa.Call)
+					if !ok || calleeName(call) != "WithinRange" {
+						return
 					}
-				}
-				if isK && k == 1 && cur {
-					c.OKH("margin@"+fname, call.Pos(), "WithinRange(currentMinute, receivedMinute, 1) gates the parse")
-				} else {
-					c.Bad("margin@"+fname, call.Pos(), "timestamp acceptance margin is %s minute(s) (must be 1: accepts a peer within 60 s, refuses one 2 minutes away)", describe(call.Common().Args[2]))
-				}
-				// failure leads to an error return before any field store
-				if es := branchSucc(call, false); es != nil {
-					storeAfter := false
-					for _, x := range es.Instrs {
-						if st, ok := x.(*ssa.Store); ok {
-							if _, isParam := storeBase(st).(*ssa.Parameter); isParam {
-								storeAfter = true
+					found = true
+					withinInst = call.Common().StaticCallee()
+					k, isK := constInt(call.Common().Args[2])
+					// args: (current, original, margin)
+					cur := false
+					for _, l0 := range Leaves(call.Common().Args[0], nil) {
+						for _, l := range helperResultLeaves(p, l0) {
+							if bo, ok := l.(*ssa.BinOp); ok && bo.Op == token.QUO {
+								cur = true
 							}
 						}
 					}
-					retErr := false
-					for _, x := range es.Instrs {
-						if r, ok := x.(*ssa.Return); ok && len(r.Results) > 0 && !retIsNil(r, len(r.Results)-1) {
-							retErr = true
-						}
+					if isK && k == 1 && cur {
+						c.OKH("margin@"+fname, call.Pos(), "WithinRange(currentMinute, receivedMinute, 1) gates the parse")
+					} else {
+						c.Bad("margin@"+fname, call.Pos(), "timestamp acceptance margin is %s minute(s) (must be 1: accepts a peer within 60 s, refuses one 2 minutes away)", describe(call.Common().Args[2]))
 					}
-					// when the test sits in a helper, the method must in turn
-					// leave with an error as soon as the helper reports one
-					if retErr && hf != fn {
-						retErr = false
-						instrs(fn, func(_ *ssa.BasicBlock, _ int, y ssa.Instruction) {
-							hc, ok := y.(*ssa.Call)
-							if !ok || hc.Common().StaticCallee() == nil || !inHelperChain(hc.Common().StaticCallee(), hf, scope) {
-								return
+					// failure leads to an error return before any field store
+					if es := branchSucc(call, false); es != nil {
+						storeAfter := false
+						for _, x := range es.Instrs {
+							if st, ok := x.(*ssa.Store); ok {
+								if _, isParam := storeBase(st).(*ssa.Parameter); isParam {
+									storeAfter = true
+								}
 							}
-							var es2 *ssa.BasicBlock
-							if hc.Common().StaticCallee().Signature.Results().Len() == 1 {
-								es2 = errSuccessorSingle(hc)
-							} else {
-								es2 = errSuccessorOfTuple(hc, hc.Common().StaticCallee().Signature.Results().Len()-1)
+						}
+						retErr := false
+						for _, x := range es.Instrs {
+							if r, ok := x.(*ssa.Return); ok && len(r.Results) > 0 && !retIsNil(r, len(r.Results)-1) {
+								retErr = true
 							}
-							if es2 == nil {
-								return
-							}
-							for _, z := range es2.Instrs {
-								if st, ok := z.(*ssa.Store); ok {
-									if _, isParam := storeBase(st).(*ssa.Parameter); isParam {
-										storeAfter = true
+						}
+						// when the test sits in a helper, the method must in turn
+						// leave with an error as soon as the helper reports one
+						if retErr && hf != fn {
+							retErr = false
+							instrs(fn, func(_ *ssa.BasicBlock, _ int, y ssa.Instruction) {
+								hc, ok := y.(*ssa.Call)
+								if !ok || hc.Common().StaticCallee() == nil || !inHelperChain(hc.Common().StaticCallee(), hf, scope) {
+									return
+								}
+								var es2 *ssa.BasicBlock
+								if hc.Common().StaticCallee().Signature.Results().Len() == 1 {
+									es2 = errSuccessorSingle(hc)
+								} else {
+									es2 = errSuccessorOfTuple(hc, hc.Common().StaticCallee().Signature.Results().Len()-1)
+								}
+								if es2 == nil {
+									return
+								}
+								for _, z := range es2.Instrs {
+									if st, ok := z.(*ssa.Store); ok {
+										if _, isParam := storeBase(st).(*ssa.Parameter); isParam {
+											storeAfter = true
+										}
+									}
+									if r, ok := z.(*ssa.Return); ok && len(r.Results) > 0 && !retIsNil(r, len(r.Results)-1) {
+										retErr = true
 									}
 								}
-								if r, ok := z.(*ssa.Return); ok && len(r.Results) > 0 && !retIsNil(r, len(r.Results)-1) {
-									retErr = true
-								}
-							}
-						})
+							})
+						}
+						if retErr && !storeAfter {
+							c.OK("stale-refused@"+fname, call.Pos(), "a timestamp outside the margin returns an error before anything is stored")
+						} else {
+							c.Bad("stale-refused@"+fname, call.Pos(), "a timestamp outside the margin does not lead straight to an error return")
+						}
 					}
-					if retErr && !storeAfter {
-						c.OK("stale-refused@"+fname, call.Pos(), "a timestamp outside the margin returns an error before anything is stored")
-					} else {
-						c.Bad("stale-refused@"+fname, call.Pos(), "a timestamp outside the margin does not lead straight to an error return")
-					}
-				}
-			})
+				})
 			}
 			if !found {
 				c.Bad("margin@"+fname, fn.Pos(), "%s no longer checks the timestamp with WithinRange", fname)
@@ -465,7 +465,6 @@ func r08_3(c *RC) {
 	}
 }
 
-
 // inHelperChain: callee is target, or a member of scope that (transitively) calls target.
 func inHelperChain(callee, target *ssa.Function, scope []*ssa.Function) bool {
 	if callee == target {
@@ -488,7 +487,6 @@ func inHelperChain(callee, target *ssa.Function, scope []*ssa.Function) bool {
 	})
 	return found
 }
-
 
 // isEpochExpr: v is the key-cache epoch of an instant - cipherKeyEpoch(t), or
 // the expression it stands for written in place: t.Round(120 s).Unix().
@@ -592,7 +590,6 @@ func saltInstants(sf *ssa.Function) ([]string, bool) {
 	})
 	return out, len(out) > 0
 }
-
 
 // foldSaltInstants evaluates saltFromTime with the constant folder: a
 // time.Time is represented by its distance in nanoseconds from
